@@ -27,6 +27,25 @@ fn main() {
         usage();
     }
     let prop = args[1].clone();
+    if prop == "dev-zz3" {
+        // development aid: prints roots for harness/src/zz_corpus.txt; usage: wverif dev-zz3 <tries> <seed>
+        let n: u64 = args.get(2).and_then(|x| x.parse().ok()).unwrap_or(1_000_000);
+        let mut x: u64 = args.get(3).and_then(|x| x.parse().ok()).unwrap_or(1) | 1;
+        let t0 = std::time::Instant::now();
+        let mut stages = [0u64; 8];
+        let mut hits = 0;
+        for _ in 0..n {
+            match props::searchsem::zz3_candidate(&mut x) {
+                Ok(p) => {
+                    hits += 1;
+                    println!("{}", p.fen());
+                }
+                Err(k) => stages[k as usize] += 1,
+            }
+        }
+        eprintln!("tries {} hits {} in {:?}; rejected at stage {:?}", n, hits, t0.elapsed(), stages);
+        return;
+    }
     if prop == "dev-zugzwang" {
         let n: u32 = args.get(2).and_then(|x| x.parse().ok()).unwrap_or(1_000_000);
         let t0 = std::time::Instant::now();
